@@ -67,7 +67,21 @@ def render(body, depth=0):
 
 
 def render_cond(cond):
-    return 'cc()' if cond[0] == 'cc' else f'vv({cond[1]})'
+    if cond[0] == 'cc':
+        return 'cc()'
+    if cond[0] == 'vv':
+        return f'vv({cond[1]})'
+    if cond[0] == 'not':
+        return '!' + render_cond(cond[1])
+    if cond[0] == 'grp':
+        return '(' + render_cond(cond[1]) + ')'
+    if cond[0] == 'neg':
+        return '-nn(' + str(cond[1]) + ')'          # unary minus on a host number: truthy iff the number is non-zero
+    if cond[0] == 'and':
+        return render_cond(cond[1]) + ' && ' + render_cond(cond[2])
+    if cond[0] == 'or':
+        return render_cond(cond[1]) + ' || ' + render_cond(cond[2])
+    raise ValueError(cond)
 
 
 def text(body):
@@ -122,7 +136,21 @@ class Ref:
         return None
 
     def cond(self, c):
-        return self.h.cc() if c[0] == 'cc' else self.h.vv(c[1])
+        if c[0] == 'cc':
+            return self.h.cc()
+        if c[0] == 'vv':
+            return self.h.vv(c[1])
+        if c[0] == 'not':
+            return not self.cond(c[1])
+        if c[0] == 'grp':
+            return self.cond(c[1])
+        if c[0] == 'neg':
+            return self.h.nn(c[1]) != 0
+        if c[0] == 'and':
+            return self.cond(c[1]) and self.cond(c[2])
+        if c[0] == 'or':
+            return self.cond(c[1]) or self.cond(c[2])
+        raise ValueError(c)
 
     def get(self, name, loc):
         if loc is not None and name in loc:
@@ -246,8 +274,9 @@ class Builder:
             has_else = kind in ('ifelse', 'ifelifelse')
             branches = []
             empty = int(flavor[1:]) if flavor.startswith('e') else -1        # flavour 'e<k>': branch k has an empty body
+            rets = flavor == 'r'                                               # flavour 'r': every branch before the else ends in `return`
             for i in range(nb):
-                b = ([] if empty == i else [self.log()]) + (inner if pos == i else [])
+                b = ([] if empty == i else [self.log()]) + (inner if pos == i else []) + ([('ret', 60 + i)] if rets else [])
                 branches.append((('cc',), b))
             else_body = None
             if has_else:
@@ -258,6 +287,10 @@ class Builder:
             body.append(('if', [(('cc',), [('break',)])], None))
         if 'c' in flavor:
             body.append(('if', [(('cc',), [('continue',)])], None))
+        if 'B' in flavor:       # break two if-levels deep, the inner one in an else branch
+            body.append(('if', [(('cc',), [self.log()])], [('if', [(('cc',), [('break',)])], None)]))
+        if 'C' in flavor:       # continue two if-levels deep
+            body.append(('if', [(('cc',), [('if', [(('cc',), [('continue',)])], None)])], None))
         body.extend(inner)
         body.append(self.log())
         if 'u' in flavor:
